@@ -40,6 +40,18 @@ def stripWs(s: Str) -> Str:
     return s.strip()
 
 
+@prim(lean="rstripWs")
+def rstripWs(s: Str) -> Str:
+    "s.rstrip()"
+    return s.rstrip()
+
+
+@prim(lean="lstripWs")
+def lstripWs(s: Str) -> Str:
+    "s.lstrip()"
+    return s.lstrip()
+
+
 @spec
 def smem(l: "StrList", x: Str) -> Bool:
     match l:
